@@ -45,6 +45,9 @@ def scenarios(tier):
     for has_time in (True, False):
         out.append({'name': f'Convention.to_netcdf[time coordinate={has_time}]', 'fn': 'scn_convention_to_netcdf',
                     'kwargs': {'has_time': has_time}})
+    for td, kw in (('INT32', False), ('INT64', True), ('FLOAT64', True)):
+        out.append({'name': f'Convention.to_netcdf[time stored as {td}, caller keywords={kw}]', 'fn': 'scn_convention_to_netcdf',
+                    'kwargs': {'has_time': True, 'time_dtype': td, 'caller_kw': kw}})
     out.append({'name': 'Convention.time_coordinate', 'fn': 'scn_time_coordinate', 'kwargs': {}})
     return out
 
@@ -213,20 +216,26 @@ def scn_to_netcdf_with_fixes(c, tv):
                 order == ['to_netcdf', 'nc.open'] and len(sets) == 1 and sets[0][1] == 't' and sets[0][2] == 'units')
 
 
-def scn_convention_to_netcdf(c, has_time):
+def scn_convention_to_netcdf(c, has_time, time_dtype=None, caller_kw=False):
     fixes_key = ('emsarray.utils', 'to_netcdf_with_fixes')
     from contracts.cli import CONTRACTS
     it = new_interp(use=[fixes_key])
     extra = []
     ds, conv = inputs.make_convention(it, c, 'CFGrid1D', extra=[('temp', ('time', 'lat', 'lon'))])
     if has_time:
-        add_var(ds, 'time', ('time',), np.NDArray((ds._sizes()['time'],), sym_array(c, 'tv', (1,), 'V').fn, np.DATETIME),
-                {}, {'units': 'days since 1990-01-01', 'calendar': 'standard'}, coord=True)
+        enc = {'units': 'days since 1990-01-01', 'calendar': 'standard'}
+        if time_dtype is not None:
+            enc['dtype'] = getattr(np, time_dtype)           # how the time axis is stored in the source file (integers are common)
+        add_var(ds, 'time', ('time',), np.NDArray((ds._sizes()['time'],), sym_array(c, 'tv', (1,), 'V').fn, np.DATETIME), {}, enc, coord=True)
     path = OpaqueValue('out.nc')
-    expect_ok(c, 'Convention.to_netcdf returns', lambda: method(it, conv, 'to_netcdf', path))
+    kw = {'engine': OpaqueValue('engine'), 'unlimited_dims': OpaqueValue('dims')} if caller_kw else {}
+    expect_ok(c, 'Convention.to_netcdf returns', lambda: method(it, conv, 'to_netcdf', path, **kw))
     calls = [e for e in c.events if e[0] == 'call' and e[1] == 'to_netcdf_with_fixes']
     c.check('exactly one to_netcdf_with_fixes call with this dataset and path', len(calls) == 1 and calls[0][2] is ds and calls[0][3] is path)
     if len(calls) == 1:
+        passed = calls[0][5] or {}
+        c.check("the caller's keyword arguments are handed on as they are and nothing is added (an encoding entry would replace the source's units, "
+                'calendar and fill-value settings of that variable)', set(passed) == set(kw) and all(passed[k] is kw[k] for k in kw))
         tvar = calls[0][4]
         if has_time:
             c.check('the time coordinate is passed so that its units are fixed', tvar is not None and getattr(tvar, 'name', None) == 'time')
